@@ -7,13 +7,19 @@
     yields (function arguments being dimensionless) a quantity of that same dimension".
 
    Inst e q        : q is e with every dimensioned symbol replaced by a non-zero quantity of its dimension
-   scopeb e        : the syntactic scope of the theorem (see /verif/design_notes/C06_diagram.md)
+   scopeb e        : the syntactic scope of the theorem (see /verif/design_notes/C06_diagram.md): non-empty argument
+                     lists, 9-vector leaf dimensions, literal rational exponents, dimensionless functions with
+                     dimensionless(-inferred) arguments, no SPlain / SDeriv, and `sum_ok` on every sum (the returned
+                     sum is not literally 0 unless every term is -- a limitation of the proof, not of the models)
    Fin q           : (from CollectQGlobal) every sub-expression of q has a finite value, leaf dimensions are
                      9-vectors, Min/Max have no literal Float(0.0) operand
    infer_then_collect :
      scopeb e = true -> Inst e q -> Fin q -> infer_e e = Ok (rv, d) ->
-     exists v d', collect q = Ok (v, d') /\ v = value q /\ wf_dim d /\ wf_dim d' /\
-                  (is_any v = true \/ deq d' d). *)
+     exists v d', collect q = Ok (v, d') /\ v = value q /\ finite_val v = true /\ wf_dim d /\ wf_dim d' /\
+                  (is_any v = true \/ deq d' d).
+   Proof: induction on q with the invariant `diag` (additionally: the inference's "literally zero" test is sound
+   for the instantiated value, and the returned expression is never zoo); Add/Min/Max through pairwise_equiv /
+   sd_go_ok_iff / unique_dim_ok_iff, Mul through dprod and Permutation (the models group factors differently). *)
 From Coq Require Import List QArith ZArith Bool NArith Lia Permutation Qround Qpower Qabs.
 From VP Require Import Base.Util Base.Dim Base.Val Model.CollectQ Model.CollectE
   Proofs.DimProofs Proofs.CollectQProofs Proofs.CollectEProofs Proofs.CollectQGlobal.
@@ -43,9 +49,20 @@ Definition nonempty {A} (l : list A) : bool := match l with [] => false | _ => t
 Definition infers_dimensionless (a : sexpr) : bool :=
   match infer_e a with Ok (_, ad) => dimensionless ad | Err _ => false end.
 
-(* the returned expression of the inference is not literally 0 / +-oo / nan *)
-Definition not_literally_any (a : sexpr) : bool :=
-  match infer_e a with Ok (rv, _) => negb (is_any rv) | Err _ => true end.
+(* how the inference sees a classified argument: (returned expression, dimension) *)
+Definition entry_of (c : cls) : val * dim :=
+  match c with CNum v => (v, dzero) | CQty v d => (v, d) | CSymb r => r end.
+
+(* every term of the sum is literally 0 / +-oo / nan for the inference *)
+Definition all_terms_any (l : list sexpr) : bool :=
+  match classify infer_e l with
+  | Ok cs => forallb (fun c => is_any (fst (entry_of c))) cs
+  | Err _ => false
+  end.
+
+(* the returned sum is not literally 0 / +-oo / nan -- unless every term is *)
+Definition sum_ok (l : list sexpr) : bool :=
+  match infer_e (SAdd l) with Ok (rv, _) => negb (is_any rv) | Err _ => true end || all_terms_any l.
 
 (* the scope of the theorem *)
 Fixpoint scopeb (e : sexpr) : bool :=
@@ -56,8 +73,7 @@ Fixpoint scopeb (e : sexpr) : bool :=
   | SPlain => false
   | SMul l => nonempty l && forallb scopeb l
   | SPow b x => scopeb b && match x with SNum (VQ _) => true | _ => false end
-                && not_literally_any (SPow b x)
-  | SAdd l => nonempty l && forallb scopeb l && not_literally_any (SAdd l)
+  | SAdd l => nonempty l && forallb scopeb l && sum_ok l
   | SAbs a => scopeb a
   | SMin l => nonempty l && forallb scopeb l
   | SMax l => nonempty l && forallb scopeb l
@@ -138,9 +154,6 @@ Qed.
 (* ================================================================================================ *)
 (* The invariant and the relation between classified children and collected children                 *)
 (* ================================================================================================ *)
-Definition entry_of (c : cls) : val * dim :=
-  match c with CNum v => (v, dzero) | CQty v d => (v, d) | CSymb r => r end.
-
 (* c : how the inference sees a child; t : what the quantity construction collects for its instance *)
 Definition crel (c : cls) (t : val * dim) : Prop :=
   finite_val (fst t) = true /\ wf_dim (snd t) /\ wf_dim (snd (entry_of c)) /\
@@ -152,7 +165,7 @@ Definition diag (q : qexpr) : Prop :=
   forall e rv d, Inst e q -> scopeb e = true -> Fin q -> infer_e e = Ok (rv, d) ->
     wf_dim d /\
     exists v d', collect q = Ok (v, d') /\ wf_dim d' /\
-                 (is_any v = true \/ deq d' d) /\ (is_any rv = true -> is_any v = true).
+                 (is_any v = true \/ deq d' d) /\ (is_any rv = true -> is_any v = true) /\ rv <> VZoo.
 
 Definition head_cls (c : sexpr -> eres) (a : sexpr) : result cls :=
   match a with
@@ -173,7 +186,7 @@ Lemma diag_symb a a' x : diag a' -> Inst a a' -> scopeb a = true -> Fin a' ->
   infer_e a = Ok x -> exists t, collect a' = Ok t /\ crel (CSymb x) t.
 Proof.
   intros Hd Hi Hs HF Hx. destruct x as [rv d].
-  destruct (Hd a rv d Hi Hs HF Hx) as [Wd [v [d' [Hc [Wd' [Hdd Hany]]]]]].
+  destruct (Hd a rv d Hi Hs HF Hx) as [Wd [v [d' [Hc [Wd' [Hdd [Hany _]]]]]]].
   exists (v, d'). split; [exact Hc|]. unfold crel. cbn [fst snd entry_of].
   repeat split; auto. rewrite (collect_value a' v d' Hc). apply Fin_finite. exact HF.
 Qed.
@@ -286,3 +299,826 @@ Proof.
       eapply deq_trans; [exact D | apply deq_sym; exact Eq].
     + left. apply Forall_forall. intros t Ht. apply (first_nonany_none ts E t Ht).
 Qed.
+
+(* ================================================================================================ *)
+(* Dimension algebra for products                                                                    *)
+(* ================================================================================================ *)
+Lemma dprod_wf ns : Forall wf_dim ns -> wf_dim (dprod ns).
+Proof.
+  induction 1 as [|n r Hn _ IH]; cbn [dprod fold_right]; [exact dzero_wf | apply dmul_wf; assumption].
+Qed.
+
+Lemma dprod_deq ns ns' : Forall2 deq ns ns' -> deq (dprod ns) (dprod ns').
+Proof.
+  induction 1 as [|n n' r r' Hn _ IH]; cbn [dprod fold_right]; [apply deq_refl | apply dmul_deq; assumption].
+Qed.
+
+Lemma dmul_dzero_l a : wf_dim a -> deq (dmul dzero a) a.
+Proof. intros Hw. eapply deq_trans; [apply dmul_comm | apply dmul_dzero_r; exact Hw]. Qed.
+
+Lemma dprod_app l1 l2 : Forall wf_dim l1 -> Forall wf_dim l2 ->
+  deq (dprod (l1 ++ l2)) (dmul (dprod l1) (dprod l2)).
+Proof.
+  intros H1 H2. induction H1 as [|n r Hn Hr IH]; cbn [app].
+  - change (dprod []) with dzero. apply deq_sym, dmul_dzero_l, dprod_wf. exact H2.
+  - change (dprod (n :: r ++ l2)) with (dmul n (dprod (r ++ l2))).
+    change (dprod (n :: r)) with (dmul n (dprod r)).
+    eapply deq_trans; [apply dmul_deq; [apply deq_refl | exact IH]|]. apply deq_sym, dmul_assoc.
+Qed.
+
+Lemma dprod_zeros {A} (l : list A) : deq (dprod (map (fun _ => dzero) l)) dzero.
+Proof.
+  induction l as [|x r IH]; cbn [map]; [apply deq_refl|].
+  change (deq (dmul dzero (dprod (map (fun _ => dzero) r))) dzero).
+  eapply deq_trans; [apply dmul_deq; [apply deq_refl | exact IH]|]. apply dmul_dzero_l, dzero_wf.
+Qed.
+
+Lemma Forall_wf_zeros {A} (l : list A) : Forall wf_dim (map (fun _ : A => dzero) l).
+Proof. induction l; cbn [map]; constructor; [exact dzero_wf | assumption]. Qed.
+
+(* the inference's grouping: numbers, then quantities, then symbolic factors *)
+Lemma group_dims cs :
+  map snd (group_entries cs) =
+  map (fun _ => dzero) (nums_of cs) ++ map snd (qtys_of cs) ++ map snd (syms_of cs).
+Proof.
+  unfold group_entries, qtys_of, syms_of. rewrite !map_app. f_equal.
+  unfold nums_of. induction cs as [|c r IH]; [reflexivity|].
+  cbn [flat_map]. rewrite !map_app, IH. destruct c; reflexivity.
+Qed.
+
+Lemma grouped_product A B Z : Forall wf_dim A -> Forall wf_dim B -> Forall wf_dim Z -> deq (dprod Z) dzero ->
+  deq (dprod (Z ++ A ++ B)) (fold_left dmul B (fold_left dmul A dzero)).
+Proof.
+  intros HA HB HZ Hz.
+  assert (WA : wf_dim (dprod A)) by (apply dprod_wf; exact HA).
+  assert (WB : wf_dim (dprod B)) by (apply dprod_wf; exact HB).
+  assert (E1 : deq (fold_left dmul A dzero) (dprod A)).
+  { eapply deq_trans; [apply fold_left_dprod; [exact dzero_wf | exact HA]|]. apply dmul_dzero_l. exact WA. }
+  assert (E2 : deq (fold_left dmul B (fold_left dmul A dzero)) (dmul (dprod A) (dprod B))).
+  { eapply deq_trans; [apply fold_left_dprod; [apply fold_dmul_wf; [exact HA | exact dzero_wf] | exact HB]|].
+    apply dmul_deq; [exact E1 | apply deq_refl]. }
+  eapply deq_trans; [|apply deq_sym; exact E2].
+  eapply deq_trans; [apply dprod_app; [exact HZ | apply Forall_app; split; assumption]|].
+  eapply deq_trans; [apply dmul_deq; [exact Hz | apply dprod_app; assumption]|].
+  apply dmul_dzero_l. apply dmul_wf; assumption.
+Qed.
+
+(* ================================================================================================ *)
+(* Products                                                                                          *)
+(* ================================================================================================ *)
+Lemma crel_wf_entries cs ts : Forall2 crel cs ts ->
+  Forall wf_dim (map snd (qtys_of cs)) /\ Forall wf_dim (map snd (syms_of cs)) /\ Forall wf_dim (map snd ts).
+Proof.
+  unfold qtys_of, syms_of.
+  induction 1 as [|c t cs ts R _ [IH1 [IH2 IH3]]]; cbn [flat_map map]; [repeat split; constructor|].
+  destruct R as [_ [Wt [Wc _]]].
+  destruct c as [v|v d|[rv d]]; cbn [entry_of snd app map] in *; repeat split; try assumption;
+    constructor; assumption.
+Qed.
+
+(* when no collected factor is of any dimension *)
+Lemma crel_nonany_all cs ts : Forall2 crel cs ts -> Forall (fun t => is_any (fst t) = false) ts ->
+  Forall (fun v => finite_val v = true /\ is_any v = false) (nums_of cs) /\
+  Forall (fun q => finite_val (fst q) = true /\ is_any (fst q) = false) (qtys_of cs) /\
+  Forall (fun s => is_any (fst s) = false) (syms_of cs) /\
+  Forall2 deq (map snd ts) (map snd (map entry_of cs)).
+Proof.
+  unfold nums_of, qtys_of, syms_of.
+  induction 1 as [|c t cs ts R _ IH]; intros Hn; cbn [flat_map map]; [repeat split; constructor|].
+  inversion Hn as [|? ? Hn0 Hnr]; subst. destruct (IH Hnr) as [IH1 [IH2 [IH3 IH4]]].
+  destruct (crel_nonany c t R Hn0) as [M D]. destruct R as [Ft [_ [_ [_ [_ Heq]]]]].
+  destruct c as [v|v d|[rv d]]; cbn [entry_of fst snd app] in *; repeat split; try assumption;
+    try (constructor; [|assumption]); cbn [fst snd]; try (split; congruence); try assumption.
+Qed.
+
+Lemma fold_cond_dmul qs : Forall (fun q : val * dim => is_any (fst q) = false) qs -> forall d0,
+  fold_left (fun d q => if is_any (fst q) then d else dmul d (snd q)) qs d0 = fold_left dmul (map snd qs) d0.
+Proof.
+  induction 1 as [|q r Hq _ IH]; intros d0; cbn [fold_left map]; [reflexivity|]. rewrite Hq. apply IH.
+Qed.
+
+Lemma fold_cond_dmul_wf qs : Forall wf_dim (map snd qs) -> forall d0, wf_dim d0 ->
+  wf_dim (fold_left (fun d (q : val * dim) => if is_any (fst q) then d else dmul d (snd q)) qs d0).
+Proof.
+  induction qs as [|q r IH]; intros Hw d0 H0; cbn [fold_left]; [exact H0|].
+  cbn [map] in Hw. inversion Hw; subst. apply IH; [assumption|].
+  destruct (is_any (fst q)); [exact H0 | apply dmul_wf; assumption].
+Qed.
+
+Lemma mul_of_wf cs ts : Forall2 crel cs ts -> wf_dim (snd (mul_of cs)).
+Proof.
+  intros R. destruct (crel_wf_entries cs ts R) as [Wq [Ws _]]. unfold mul_of.
+  destruct (is_any _); cbn [snd]; [exact dzero_wf|].
+  apply fold_dmul_wf; [exact Ws | apply fold_cond_dmul_wf; [exact Wq | exact dzero_wf]].
+Qed.
+
+Lemma Forall_and_l {A} (P Q : A -> Prop) l : Forall (fun x => P x /\ Q x) l -> Forall P l.
+Proof. apply Forall_impl. intros a [H _]. exact H. Qed.
+Lemma Forall_and_r {A} (P Q : A -> Prop) l : Forall (fun x => P x /\ Q x) l -> Forall Q l.
+Proof. apply Forall_impl. intros a [_ H]. exact H. Qed.
+Lemma Forall_map_fst {A B} (P : A -> Prop) (l : list (A * B)) :
+  Forall (fun t => P (fst t)) l -> Forall P (map fst l).
+Proof. induction 1; cbn [map]; constructor; assumption. Qed.
+
+Lemma mul_diagram cs p ts0 : Forall2 crel cs (p :: ts0) ->
+  is_any (fold_left vmul (map fst ts0) (fst p)) = false ->
+  is_any (fst (mul_of cs)) = false /\ deq (fold_left dmul (map snd ts0) (snd p)) (snd (mul_of cs)).
+Proof.
+  intros R Hv.
+  assert (Fts : Forall (fun t => finite_val (fst t) = true) (p :: ts0)).
+  { apply Forall_forall. intros t Ht. destruct (Forall2_in_r _ _ _ R t Ht) as [c [_ Hc]]. apply Hc. }
+  inversion Fts as [|? ? Fp Fts0]; subst.
+  assert (Nts : Forall (fun t => is_any (fst t) = false) (p :: ts0)).
+  { apply Forall_forall. intros t Ht. destruct (is_any (fst t)) eqn:E; [exfalso | reflexivity].
+    rewrite fold_vmul_any in Hv; [discriminate Hv | exact Fp | apply Forall_map_fst; exact Fts0 |].
+    destruct Ht as [<-|Ht]; [left; exact E | right]. apply Exists_exists. exists (fst t).
+    split; [apply in_map; exact Ht | exact E]. }
+  destruct (crel_nonany_all cs _ R Nts) as [N1 [N2 [N3 N4]]].
+  destruct (crel_wf_entries cs _ R) as [Wq [Ws Wt]].
+  assert (Hqf : is_any (fold_left vmul (map fst (qtys_of cs)) (fold_left vmul (nums_of cs) (VQ 1))) = false).
+  { apply fold_vmul_nonany.
+    - apply fold_vmul_finite; [reflexivity | eapply Forall_and_l; exact N1].
+    - apply Forall_map_fst. eapply Forall_and_l. exact N2.
+    - apply fold_vmul_nonany; [reflexivity | eapply Forall_and_l; exact N1 | reflexivity | eapply Forall_and_r; exact N1].
+    - apply Forall_map_fst. eapply Forall_and_r. exact N2. }
+  unfold mul_of. rewrite Hqf. cbn [fst snd]. split.
+  - match goal with |- is_any ?x = false => destruct (is_any x) eqn:E; [exfalso | reflexivity] end.
+    apply fold_smul_any in E as [E|E].
+    + destruct (dimensionless _); [congruence | discriminate E].
+    + apply Exists_exists in E as [x [Hx Ex]]. apply in_map_iff in Hx as [s [<- Hs]].
+      rewrite Forall_forall in N3. rewrite (N3 s Hs) in Ex. discriminate Ex.
+  - rewrite (fold_cond_dmul _ (Forall_and_r _ _ _ N2)).
+    cbn [map] in Wt. inversion Wt as [|? ? Wp Wt0]; subst.
+    eapply deq_trans; [apply fold_left_dprod; assumption|].
+    change (dmul (snd p) (dprod (map snd ts0))) with (dprod (map snd (p :: ts0))).
+    eapply deq_trans; [apply dprod_deq; exact N4|].
+    eapply deq_trans; [apply dprod_perm, Permutation_map, group_perm|].
+    rewrite group_dims. apply grouped_product; [exact Wq | exact Ws | apply Forall_wf_zeros | apply dprod_zeros].
+Qed.
+
+(* ================================================================================================ *)
+(* Node lemmas                                                                                       *)
+(* ================================================================================================ *)
+Lemma sd_node comb l' ts cs d (P : val -> Prop) :
+  map_res collect l' = Ok ts -> Forall2 crel cs ts -> unique_dim cs = Ok d ->
+  (exists v, sd_val comb None ts = Some v) ->
+  (forall a b y, P a -> P b -> comb a b = Some y -> P y) ->
+  (forall x, P x -> is_any x = true) ->
+  (Forall (fun t => is_any (fst t) = true) ts -> Forall (fun t => P (fst t)) ts) ->
+  wf_dim d /\
+  exists v d', sd_go collect comb None None dzero l' = Ok (v, d') /\ wf_dim d' /\ (is_any v = true \/ deq d' d).
+Proof.
+  intros Hts R Hu [v Hv] Hc Hany Hall.
+  destruct (sd_diagram cs ts d R Hu) as [Hp [Wd [Wp Hd]]]. split; [exact Wd|].
+  exists v, (pick_dim ts). split; [apply (sd_go_ok_iff collect comb l' ts v _ Hts); auto|].
+  split; [exact Wp|]. destruct Hd as [Ha|Hd]; [left | right; exact Hd].
+  apply Hany. apply (sd_val_closed comb P Hc ts None v I (Hall Ha) Hv).
+Qed.
+
+Lemma crel_finite cs ts : Forall2 crel cs ts -> Forall (fun t => finite_val (fst t) = true) ts.
+Proof. induction 1 as [|c t cs ts R _ IH]; constructor; [apply R | exact IH]. Qed.
+
+Lemma Forall2_nonempty {A B} (R : A -> B -> Prop) l l' : Forall2 R l l' -> nonempty l = true -> l' <> [].
+Proof. intros H Hn. destruct H; [discriminate Hn | discriminate]. Qed.
+
+Lemma finite_comparable v : finite_val v = true -> comparable v = true.
+Proof. destruct v; intros H; try discriminate H; reflexivity. Qed.
+
+Lemma fin_any_all ts : Forall (fun t : val * dim => finite_val (fst t) = true) ts ->
+  Forall (fun t => is_any (fst t) = true) ts -> Forall (fun t => fin_any (fst t)) ts.
+Proof.
+  induction 1 as [|t r Ft _ IH]; intros H; [constructor|]. inversion H; subst.
+  constructor; [split; assumption | apply IH; assumption].
+Qed.
+
+Lemma zero_q_all ts : Forall (fun t : val * dim => finite_val (fst t) = true) ts ->
+  Forall (fun t => fst t <> VFloat0) ts ->
+  Forall (fun t => is_any (fst t) = true) ts -> Forall (fun t => zero_q (fst t)) ts.
+Proof.
+  induction 1 as [|[v d] r Ft _ IH]; intros Hn H; [constructor|]. inversion H; subst. inversion Hn; subst.
+  constructor; [|apply IH; assumption]. cbn [fst] in *.
+  destruct v as [q| | | | | | |]; try discriminate; try congruence. exists q. auto.
+Qed.
+
+Lemma map_res_no_float0 l' ts : map_res collect l' = Ok ts ->
+  Forall (fun t => value t <> VFloat0) l' -> Forall (fun t => fst t <> VFloat0) ts.
+Proof.
+  revert ts. induction l' as [|a r IH]; intros ts H Hn; cbn [map_res] in H.
+  - inversion H; constructor.
+  - destruct (collect a) as [[af ad]|k] eqn:Ea; [|discriminate].
+    destruct (map_res collect r) as [ts'|k]; [|discriminate]. inversion H; subst. inversion Hn; subst.
+    constructor; [cbn [fst]; rewrite (collect_value a af ad Ea); assumption | apply IH; [reflexivity | assumption]].
+Qed.
+
+Lemma cmp_comb_closed g (P : val -> Prop) : (forall a b, P a -> P b -> P (g a b)) ->
+  forall a b y, P a -> P b -> cmp_comb g a b = Some y -> P y.
+Proof.
+  intros Hg a b y Ha Hb H. unfold cmp_comb in H. destruct (comparable a && comparable b); inversion H; subst.
+  apply Hg; assumption.
+Qed.
+
+Lemma comb_add_closed a b y : fin_any a -> fin_any b -> comb_add a b = Some y -> fin_any y.
+Proof. intros Ha Hb H. inversion H; subst. apply vadd_fin_any; assumption. Qed.
+
+(* ---- applied functions -------------------------------------------------------------------------- *)
+Lemma infer_fun_inv d l r : infer_e (SFun d l) = Ok r ->
+  r = (VSym, d) /\ Forall (fun a => exists y, infer_e a = Ok y) l.
+Proof.
+  cbn [infer_e]. induction l as [|a l IH]; intros H.
+  - inversion H. split; [reflexivity | constructor].
+  - destruct (infer_e a) as [y|k] eqn:E; [|discriminate H]. destruct (IH H) as [H1 H2].
+    split; [exact H1 | constructor; [exists y; exact E | exact H2]].
+Qed.
+
+Lemma fun_children l' ov : Forall diag l' -> forall l, Forall2 Inst l l' ->
+  forallb scopeb l = true -> forallb infers_dimensionless l = true -> Forall Fin l' ->
+  fun_go collect ov l' = Ok (ov, dzero).
+Proof.
+  induction 1 as [|a' r' Ha _ IH]; intros l Hi Hs Hdl HF; inversion Hi as [|a ? r ? Hia Hir]; subst; [reflexivity|].
+  cbn [forallb] in Hs, Hdl. apply andb_true_iff in Hs as [Hsa Hsr]. apply andb_true_iff in Hdl as [Hda Hdr].
+  inversion HF as [|? ? Fa Fr]; subst. unfold infers_dimensionless in Hda.
+  destruct (infer_e a) as [[rv ad]|k] eqn:E; [|discriminate Hda].
+  destruct (Ha a rv ad Hia Hsa Fa E) as [_ [v [d' [Hc [_ [Hd _]]]]]].
+  cbn [fun_go]. rewrite Hc.
+  assert (Hok : is_any v || dimensionless d' = true).
+  { destruct Hd as [Hd|Hd]; [rewrite Hd; reflexivity|]. rewrite (dimensionless_deq _ _ Hd), Hda. apply orb_true_r. }
+  rewrite Hok. apply (IH r); assumption.
+Qed.
+
+(* ---- values: zoo and absolute value --------------------------------------------------------------- *)
+Lemma smul_not_zoo a b : smul a b <> VZoo.
+Proof.
+  destruct a as [x| | | | | | |], b as [y| | | | | | |]; cbn [smul]; try discriminate;
+    try (destruct (qzero x); discriminate); try (destruct (qzero y); discriminate).
+Qed.
+
+Lemma fold_smul_zoo vs : forall a, fold_left smul vs a = VZoo -> a = VZoo.
+Proof.
+  induction vs as [|v r IH]; intros a H; cbn [fold_left] in H; [exact H|].
+  apply IH in H. exfalso. exact (smul_not_zoo _ _ H).
+Qed.
+
+Lemma crel_group_finite cs ts : Forall2 crel cs ts ->
+  Forall (fun v => finite_val v = true) (nums_of cs) /\
+  Forall (fun v => finite_val v = true) (map fst (qtys_of cs)).
+Proof.
+  unfold nums_of, qtys_of.
+  induction 1 as [|c t cs ts R _ [IH1 IH2]]; cbn [flat_map map]; [split; constructor|].
+  destruct R as [Ft [_ [_ [_ [_ Heq]]]]].
+  destruct c as [v|v d|[rv d]]; cbn [entry_of fst snd app map] in *; split; try assumption;
+    constructor; try assumption; congruence.
+Qed.
+
+Lemma mul_of_not_zoo cs ts : Forall2 crel cs ts -> fst (mul_of cs) <> VZoo.
+Proof.
+  intros R. destruct (crel_group_finite cs ts R) as [F1 F2].
+  assert (Fq : finite_val (fold_left vmul (map fst (qtys_of cs)) (fold_left vmul (nums_of cs) (VQ 1))) = true).
+  { apply fold_vmul_finite; [apply fold_vmul_finite; [reflexivity | exact F1] | exact F2]. }
+  unfold mul_of. destruct (is_any _) eqn:E; cbn [fst]; intros H.
+  - rewrite H in E. discriminate E.
+  - apply fold_smul_zoo in H. destruct (dimensionless _); [rewrite H in Fq; discriminate Fq | discriminate H].
+Qed.
+
+Lemma Qabs_zero q : qzero (Qabs q) = true -> qzero q = true.
+Proof.
+  unfold qzero. rewrite !Qeq_bool_iff. destruct q as [n dn]. unfold Qeq, Qabs. cbn. lia.
+Qed.
+
+Lemma vabs_any_inv a : is_any (vabs a) = true -> is_any a = true \/ a = VZoo.
+Proof.
+  destruct a as [q| | | | | | |]; cbn [vabs]; intros H; try discriminate H; try (left; reflexivity);
+    try (right; reflexivity).
+  left. change (qzero (Qred (Qabs q)) = true) in H. rewrite Qred_zero in H. apply Qabs_zero. exact H.
+Qed.
+
+(* ================================================================================================ *)
+(* The invariant holds at every node                                                                 *)
+(* ================================================================================================ *)
+Lemma diag_num v0 : diag (QNum v0).
+Proof.
+  intros e rv d Hi Hs HF He. inversion Hi as [v Hn| | | | | | | | |]; subst. inversion HF; subst.
+  cbn [infer_e] in He. inversion He; subst. split; [exact dzero_wf|].
+  exists rv, dzero. cbn [collect]. rewrite Hn.
+  repeat split; auto using dzero_wf; [right; apply deq_refl | intros ->; discriminate].
+Qed.
+
+Lemma diag_qty v0 d0 : diag (QQty v0 d0).
+Proof.
+  intros e rv d Hi Hs HF He.
+  assert (Fv : finite_val v0 = true /\ wf_dim d0) by (inversion HF; subst; split; assumption).
+  destruct Fv as [Fv Wd0].
+  assert (Hrd : rv = VSym /\ d = d0).
+  { inversion Hi; subst; cbn [infer_e] in He; inversion He; subst; split; reflexivity. }
+  destruct Hrd as [-> ->]. split; [exact Wd0|]. exists v0, d0. cbn [collect].
+  repeat split; auto; try (right; apply deq_refl); discriminate.
+Qed.
+
+Lemma diag_abs a' : diag a' -> diag (QAbs a').
+Proof.
+  intros IH e rv d Hi Hs HF He. inversion Hi as [| | | | | |a ? Ha| | |]; subst. inversion HF as [| | | | | |? Fa Ff| | |]; subst.
+  cbn [scopeb] in Hs. cbn [infer_e] in He. destruct (infer_e a) as [[av ad]|k] eqn:Ea; [|discriminate He].
+  inversion He; subst. destruct (IH a av d Ha Hs Fa Ea) as [Wd [f [d' [Hc [Wd' [Hd [Hany Hz]]]]]]].
+  split; [exact Wd|]. exists (vabs f), d'. cbn [collect]. rewrite Hc. repeat split; auto.
+  - destruct Hd as [Hd|Hd]; [left; apply vabs_any; exact Hd | right; exact Hd].
+  - intros H. apply vabs_any. apply Hany. destruct av; try discriminate H;
+      (apply vabs_any_inv in H as [H|H]; [exact H | congruence]).
+  - destruct av; cbn [vabs]; discriminate.
+Qed.
+
+Lemma diag_fun ov l' : Forall diag l' -> diag (QFun ov l').
+Proof.
+  intros IH e rv d Hi Hs HF He. inversion Hi as [| | | | | | | | |d0 ? l ? Hl]; subst.
+  inversion HF as [| | | | | | | | |? ? Fl Fo]; subst.
+  cbn [scopeb] in Hs. apply andb_true_iff in Hs as [Hs Hdl]. apply andb_true_iff in Hs as [Hs Hsl].
+  apply andb_true_iff in Hs as [Hw Hd0]. apply wf_dimb_wf in Hw.
+  apply infer_fun_inv in He as [He _]. inversion He; subst. split; [exact Hw|].
+  exists ov, dzero. cbn [collect]. rewrite (fun_children l' ov IH l Hl Hsl Hdl Fl).
+  repeat split; auto using dzero_wf; try discriminate.
+  right. apply deq_sym. apply dimensionless_wf_dzero; assumption.
+Qed.
+
+Lemma diag_mul l' : Forall diag l' -> diag (QMul l').
+Proof.
+  intros IH e rv d Hi Hs HF He. inversion Hi as [| | |l ? Hl| | | | | |]; subst.
+  assert (Fl : Forall Fin l') by (inversion HF; assumption).
+  cbn [scopeb] in Hs. apply andb_true_iff in Hs as [Hne Hsl].
+  cbn [infer_e] in He. destruct (classify infer_e l) as [cs|k] eqn:Ec; [|discriminate He].
+  destruct (children_rel l' IH l cs Hl Hsl Fl Ec) as [ts [Hts R]].
+  pose proof (mul_of_wf cs ts R) as Wd. pose proof (mul_of_not_zoo cs ts R) as Hz.
+  inversion He as [Hm]. rewrite Hm in Wd, Hz. cbn [fst snd] in Wd, Hz. split; [exact Wd|].
+  destruct l' as [|x xs]; [exfalso; exact (Forall2_nonempty _ _ _ Hl Hne eq_refl)|].
+  cbn [map_res] in Hts. destruct (collect x) as [p|k] eqn:Ex; [|discriminate Hts].
+  destruct (map_res collect xs) as [ts0|k] eqn:Exs; [|discriminate Hts]. inversion Hts; subst ts.
+  destruct (collect_mul_spec x xs p ts0 Ex Exs) as [v [d' [Hc [Hv Hd]]]].
+  pose proof (crel_finite _ _ R) as Fts. pose proof (Forall_inv Fts) as Fp. pose proof (Forall_inv_tail Fts) as Fts0.
+  cbn beta in Fp. specialize (Hd Fp Fts0).
+  destruct (collect_dim_claim (QMul (x :: xs)) HF) as [_ Hclaim]. destruct (Hclaim v d' Hc) as [Wd' _].
+  exists v, d'. split; [exact Hc|]. split; [exact Wd'|].
+  destruct (is_any v) eqn:Ev.
+  - repeat split; auto.
+  - destruct Hd as [Hd|Hd]; [discriminate Hd|].
+    assert (Hv' : is_any (fold_left vmul (map fst ts0) (fst p)) = false) by (rewrite <- Hv; exact Ev).
+    destruct (mul_diagram cs p ts0 R Hv') as [Hrv Hdd]. rewrite Hm in Hrv, Hdd. cbn [fst snd] in Hrv, Hdd.
+    repeat split; auto.
+    + right. eapply deq_trans; [exact Hd | exact Hdd].
+    + intros H. congruence.
+Qed.
+
+Lemma crel_nonempty cs ts : Forall2 crel cs ts -> cs <> [] -> ts <> [].
+Proof. intros H Hn. destruct H; [congruence | discriminate]. Qed.
+
+Lemma classify_nonempty l cs : classify infer_e l = Ok cs -> nonempty l = true -> cs <> [].
+Proof.
+  destruct l as [|a r]; intros H Hn; [discriminate Hn|]. rewrite classify_cons in H.
+  destruct (head_cls infer_e a); [|discriminate H]. destruct (classify infer_e r); [|discriminate H].
+  inversion H. discriminate.
+Qed.
+
+(* ---- the returned sum is never zoo -------------------------------------------------------------- *)
+Lemma vadd_finite a b : finite_val a = true -> finite_val b = true -> finite_val (vadd a b) = true.
+Proof. destruct a, b; cbn; intros; try discriminate; reflexivity. Qed.
+
+Lemma fold_vadd_finite vs : forall a, finite_val a = true -> Forall (fun v => finite_val v = true) vs ->
+  finite_val (fold_left vadd vs a) = true.
+Proof.
+  induction vs as [|v r IH]; intros a Fa Fv; cbn [fold_left]; [exact Fa|].
+  inversion Fv; subst. apply IH; [apply vadd_finite; assumption | assumption].
+Qed.
+
+Lemma sadd_not_zoo a b : sadd a b <> VZoo.
+Proof. destruct a, b; cbn [sadd]; discriminate. Qed.
+
+Lemma fold_sadd_zoo vs : forall a, fold_left sadd vs a = VZoo -> a = VZoo.
+Proof.
+  induction vs as [|v r IH]; intros a H; cbn [fold_left] in H; [exact H|].
+  apply IH in H. exfalso. exact (sadd_not_zoo _ _ H).
+Qed.
+
+Lemma add_val_not_zoo cs ts d : Forall2 crel cs ts -> add_val cs d <> VZoo.
+Proof.
+  intros R H. destruct (crel_group_finite cs ts R) as [F1 F2]. unfold add_val in H.
+  apply fold_sadd_zoo in H. destruct (dimensionless d); [|discriminate H].
+  assert (Fq : finite_val (fold_left vadd (map fst (qtys_of cs)) (fold_left vadd (nums_of cs) (VQ 0))) = true).
+  { apply fold_vadd_finite; [apply fold_vadd_finite; [reflexivity | exact F1] | exact F2]. }
+  rewrite H in Fq. discriminate Fq.
+Qed.
+
+(* every term literally of any dimension for the inference: every collected term is zero *)
+Lemma crel_all_any cs ts : Forall2 crel cs ts ->
+  forallb (fun c => is_any (fst (entry_of c))) cs = true -> Forall (fun t => is_any (fst t) = true) ts.
+Proof.
+  induction 1 as [|c t cs ts R _ IH]; intros H; [constructor|]. cbn [forallb] in H.
+  apply andb_true_iff in H as [H1 H2]. constructor; [apply R; exact H1 | apply IH; exact H2].
+Qed.
+
+Lemma diag_add l' : Forall diag l' -> diag (QAdd l').
+Proof.
+  intros IH e rv d Hi Hs HF He. inversion Hi as [| | | | |l ? Hl| | | |]; subst.
+  assert (Fl : Forall Fin l') by (inversion HF; assumption).
+  cbn [scopeb] in Hs. apply andb_true_iff in Hs as [Hs Hok]. apply andb_true_iff in Hs as [Hne Hsl].
+  unfold sum_ok, all_terms_any in Hok. rewrite He in Hok.
+  cbn [infer_e] in He. destruct (classify infer_e l) as [cs|k] eqn:Ec; [|discriminate He].
+  destruct (unique_dim cs) as [d0|k] eqn:Eu; [|discriminate He]. injection He as Hrv Hd0. subst d0.
+  destruct (children_rel l' IH l cs Hl Hsl Fl Ec) as [ts [Hts R]].
+  pose proof (crel_finite _ _ R) as Fts.
+  assert (Hne' : ts <> []) by (eapply crel_nonempty; [exact R | eapply classify_nonempty; eassumption]).
+  destruct (sd_node comb_add l' ts cs d fin_any Hts R Eu
+              (sd_val_add_total ts None (or_intror Hne')) comb_add_closed (fun x Hx => proj2 Hx)
+              (fin_any_all ts Fts)) as [Wd [v [d' [Hc [Wd' Hd]]]]].
+  split; [exact Wd|]. exists v, d'. cbn [collect]. split; [exact Hc|]. split; [exact Wd'|]. split; [exact Hd|].
+  split.
+  - intros Hany. rewrite Hany in Hok. cbn [negb orb] in Hok.
+    apply (sd_go_ok_iff collect comb_add l' ts v d' Hts) in Hc as [_ [Hv _]].
+    pose proof (crel_all_any cs ts R Hok) as Hall.
+    exact (proj2 (sd_val_closed comb_add fin_any comb_add_closed ts None v I (fin_any_all ts Fts Hall) Hv)).
+  - rewrite <- Hrv. eapply add_val_not_zoo. exact R.
+Qed.
+
+Lemma minmax_node g l' l rv d :
+  (forall a b, comparable a = true -> comparable b = true -> comparable (g a b) = true) ->
+  (forall a b, zero_q a -> zero_q b -> zero_q (g a b)) ->
+  Forall diag l' -> Forall2 Inst l l' -> nonempty l = true -> forallb scopeb l = true ->
+  Forall Fin l' -> Forall (fun t => value t <> VFloat0) l' ->
+  match classify infer_e l with
+  | Err k => Err k
+  | Ok cs => match unique_dim cs with Err k => Err k | Ok d => Ok (VSym, d) end
+  end = Ok (rv, d) ->
+  wf_dim d /\
+  exists v d', sd_go collect (cmp_comb g) None None dzero l' = Ok (v, d') /\ wf_dim d' /\
+               (is_any v = true \/ deq d' d) /\ (is_any rv = true -> is_any v = true) /\ rv <> VZoo.
+Proof.
+  intros Hg Hz IH Hl Hne Hsl Fl Hnf He.
+  destruct (classify infer_e l) as [cs|k] eqn:Ec; [|discriminate He].
+  destruct (unique_dim cs) as [d0|k] eqn:Eu; [|discriminate He]. inversion He; subst d0 rv.
+  destruct (children_rel l' IH l cs Hl Hsl Fl Ec) as [ts [Hts R]].
+  pose proof (crel_finite _ _ R) as Fts.
+  assert (Hne' : ts <> []) by (eapply crel_nonempty; [exact R | eapply classify_nonempty; eassumption]).
+  assert (Hex : exists v, sd_val (cmp_comb g) None ts = Some v).
+  { apply (sd_val_cmp_none g Hg). split; [exact Hne'|]. intros _.
+    unfold all_comparable. eapply Forall_impl; [|exact Fts]. intros t Ht. apply finite_comparable. exact Ht. }
+  destruct (sd_node (cmp_comb g) l' ts cs d zero_q Hts R Eu Hex (cmp_comb_closed g zero_q Hz) zero_q_any
+              (zero_q_all ts Fts (map_res_no_float0 l' ts Hts Hnf))) as [Wd [v [d' [Hc [Wd' Hd]]]]].
+  split; [exact Wd|]. exists v, d'. repeat split; auto; discriminate.
+Qed.
+
+Lemma diag_min l' : Forall diag l' -> diag (QMin l').
+Proof.
+  intros IH e rv d Hi Hs HF He. inversion Hi as [| | | | | | |l ? Hl| |]; subst.
+  inversion HF as [| | | | | | |? Fl Hnf Ff| |]; subst.
+  cbn [scopeb] in Hs. apply andb_true_iff in Hs as [Hne Hsl]. cbn [infer_e] in He. cbn [collect].
+  rewrite comb_min_cmp. eapply minmax_node; eauto using vmin_comparable, vmin_zero_q.
+Qed.
+
+Lemma diag_max l' : Forall diag l' -> diag (QMax l').
+Proof.
+  intros IH e rv d Hi Hs HF He. inversion Hi as [| | | | | | | |l ? Hl|]; subst.
+  inversion HF as [| | | | | | | |? Fl Hnf Ff|]; subst.
+  cbn [scopeb] in Hs. apply andb_true_iff in Hs as [Hne Hsl]. cbn [infer_e] in He. cbn [collect].
+  rewrite comb_max_cmp. eapply minmax_node; eauto using vmax_comparable, vmax_zero_q.
+Qed.
+
+(* ---- powers: when the returned power is literally 0 / oo / nan / zoo ------------------------------ *)
+Lemma qzero_power_inv x n : qzero (Qpower x n) = true -> qzero x = true.
+Proof.
+  intros H. destruct (qzero x) eqn:E; [reflexivity | exfalso]. unfold qzero in *.
+  apply Qeq_bool_iff in H. apply (Qpower_not_0 x n); [|exact H].
+  intros Hx. apply Qeq_bool_iff in Hx. congruence.
+Qed.
+
+Lemma qred_frac_zero a b : qzero (Qred (a # b)) = true -> a = 0%Z.
+Proof.
+  rewrite Qred_zero. unfold qzero. rewrite Qeq_bool_iff. unfold Qeq. cbn. lia.
+Qed.
+
+Lemma qsqrt_zero_inv x r : qsqrt_exact x = Some r -> qzero r = true -> qzero x = true.
+Proof.
+  unfold qsqrt_exact. cbv zeta. destruct (Qnum (Qred x) <? 0)%Z; [discriminate|].
+  remember (Z.sqrt (Qnum (Qred x))) as sn eqn:Hsn.
+  remember (Z.to_pos (Z.sqrt (Z.pos (Qden (Qred x))))) as sd eqn:Hsd.
+  destruct ((sn * sn =? Qnum (Qred x))%Z && _) eqn:E; [|discriminate].
+  intros H Hr. assert (Hr' : qzero (Qred (sn # sd)) = true) by congruence.
+  apply qred_frac_zero in Hr'. apply andb_true_iff in E as [E _]. apply Z.eqb_eq in E.
+  unfold qzero. apply Qeq_bool_iff. rewrite <- (Qred_correct x). unfold Qeq. cbn. lia.
+Qed.
+
+Lemma vpow_any_inv bv q : is_any (vpow bv (VQ q)) = true -> is_any bv = true.
+Proof.
+  destruct bv as [x| | | | | | |]; try reflexivity; cbn [vpow]; intros H.
+  - change (is_any (VQ x)) with (qzero x). destruct (qzero q); [discriminate H|].
+    destruct (Qeq_bool x 1); [discriminate H|]. destruct (is_int q).
+    + destruct (qzero x) eqn:Ex; [reflexivity|]. cbn [andb] in H.
+      change (qzero (Qred (Qpower x (Qfloor q))) = true) in H. rewrite Qred_zero in H.
+      rewrite (qzero_power_inv _ _ H) in Ex. discriminate Ex.
+    + destruct (Qeq_bool (q * 2) (inject_Z (Qfloor (q * 2)))).
+      * destruct (qsqrt_exact x) as [r|] eqn:Er; [|discriminate H].
+        destruct (qzero r) eqn:Ez; [exact (qsqrt_zero_inv x r Er Ez)|]. cbn [andb] in H.
+        change (qzero (Qred (Qpower r (Qfloor (q * 2)))) = true) in H. rewrite Qred_zero in H.
+        rewrite (qzero_power_inv _ _ H) in Ez. discriminate Ez.
+      * destruct (qzero x); [reflexivity | discriminate H].
+  - destruct (qzero q); discriminate H.
+  - destruct (qzero q); discriminate H.
+  - destruct (qzero q); discriminate H.
+Qed.
+
+Lemma vpow_zoo_inv bv q : vpow bv (VQ q) = VZoo -> is_any bv = true /\ (Qnum q <? 0)%Z = true.
+Proof.
+  destruct bv as [x| | | | | | |]; cbn [vpow]; intros H; try (destruct (qzero q); discriminate H).
+  - change (is_any (VQ x)) with (qzero x). destruct (qzero q); [discriminate H|].
+    destruct (Qeq_bool x 1); [discriminate H|]. destruct (is_int q).
+    + destruct (qzero x); [|discriminate H]. destruct (Qnum q <? 0)%Z; [split; reflexivity | discriminate H].
+    + destruct (Qeq_bool (q * 2) (inject_Z (Qfloor (q * 2)))).
+      * destruct (qsqrt_exact x) as [r|] eqn:Er; [|discriminate H].
+        destruct (qzero r) eqn:Ez; [|discriminate H]. destruct (Qnum q <? 0)%Z; [|discriminate H].
+        split; [exact (qsqrt_zero_inv x r Er Ez) | reflexivity].
+      * destruct (qzero x); [|discriminate H]. destruct (Qnum q <? 0)%Z; [split; reflexivity | discriminate H].
+  - destruct (qzero q); [discriminate H|]. destruct (Qnum q <? 0)%Z; [split; reflexivity | discriminate H].
+  - destruct (qzero q); [discriminate H|]. destruct (Qnum q <? 0)%Z; discriminate H.
+  - destruct (qzero q); [discriminate H|]. destruct (Qnum q <? 0)%Z; [discriminate H|].
+    destruct (is_int q); [destruct (Z.even _)|]; discriminate H.
+Qed.
+
+Lemma qnum_neg_nonzero q : (Qnum q <? 0)%Z = true -> qzero q = false.
+Proof.
+  intros H. apply Z.ltb_lt in H. unfold qzero. destruct (Qeq_bool q 0) eqn:E; [|reflexivity].
+  apply Qeq_bool_iff in E. unfold Qeq in E. cbn in E. lia.
+Qed.
+
+Lemma vpow_zero_neg bf q : finite_val bf = true -> is_any bf = true -> (Qnum q <? 0)%Z = true ->
+  vpow bf (VQ q) = VZoo.
+Proof.
+  intros Fb Hb Hq. pose proof (qnum_neg_nonzero q Hq) as Hq0.
+  destruct bf as [x| | | | | | |]; try discriminate Fb; try discriminate Hb; cbn [vpow]; rewrite Hq0.
+  - change (qzero x = true) in Hb. assert (Hx : x == 0) by (apply Qeq_bool_iff; exact Hb).
+    assert (H1 : Qeq_bool x 1 = false).
+    { destruct (Qeq_bool x 1) eqn:E; [|reflexivity]. apply Qeq_bool_iff in E. rewrite Hx in E. discriminate E. }
+    rewrite H1, Hb, Hq. cbn [andb]. rewrite (qsqrt_exact_zero x Hx).
+    change (qzero 0) with true. cbn [andb].
+    destruct (is_int q); [reflexivity|]. destruct (Qeq_bool (q * 2) _); reflexivity.
+  - rewrite Hq. reflexivity.
+Qed.
+
+Lemma dimensionless_dzero : dimensionless dzero = true.
+Proof. reflexivity. Qed.
+
+Lemma diag_pow b' x' : diag b' -> diag (QPow b' x').
+Proof.
+  intros IH e rv d Hi Hs HF He. inversion Hi as [| | | |b x ? ? Hb Hx| | | | |]; subst.
+  inversion HF as [| | | |? ? Fb Fx Ff| | | | |]; subst.
+  cbn [scopeb] in Hs. apply andb_true_iff in Hs as [Hsb Hlit].
+  destruct x as [xv| | | | | | | | | | |]; try discriminate Hlit. destruct xv as [q| | | | | | |]; try discriminate Hlit.
+  inversion Hx; subst.
+  cbn [infer_e] in He. rewrite dimensionless_dzero in He. cbn [negb] in He. rewrite andb_false_r in He.
+  destruct (infer_e b) as [[bv bd]|k] eqn:Eb; [|discriminate He].
+  destruct (dim_pow_expr bd (VQ q)) as [dd|] eqn:Ed; [|discriminate He]. injection He as Hrv' Hdd. subst dd.
+  assert (Hcase : rv = VSym \/ rv = vpow bv (VQ q)) by (rewrite <- Hrv'; destruct bv; auto).
+  clear Hrv'.
+  destruct (IH b bv bd Hb Hsb Fb Eb) as [Wbd [bf [bd' [Hc [Wbd' [Hd [Hany3 _]]]]]]].
+  change (dim_pow_val bd (VQ q) = Some d) in Ed.
+  destruct (dim_pow_val_spec bd (VQ q) d Wbd Ed) as [Wd Dd]. split; [exact Wd|].
+  destruct (dim_pow_val bd' (VQ q)) as [d'|] eqn:Ed'.
+  2:{ unfold dim_pow_val in Ed'. destruct (dimensionless bd'); discriminate Ed'. }
+  destruct (dim_pow_val_spec bd' (VQ q) d' Wbd' Ed') as [Wd' Dd'].
+  pose proof (collect_value b' bf bd' Hc) as Hbf.
+  assert (Fbf : finite_val bf = true) by (rewrite Hbf; apply Fin_finite; exact Fb).
+  cbn [value] in Ff. rewrite <- Hbf in Ff.
+  exists (vpow bf (VQ q)), d'. cbn [collect]. rewrite Hc. cbn [is_number].
+  rewrite dimensionless_dzero, orb_true_r, Ed'.
+  split; [reflexivity|]. split; [exact Wd'|]. split; [|split].
+  - destruct Hd as [Hd|Hd].
+    + destruct (qzero q) eqn:Eq.
+      * right. assert (Hq : q == 0) by (apply Qeq_bool_iff; exact Eq).
+        eapply deq_trans; [exact Dd'|]. eapply deq_trans; [apply dpow0_wf; assumption|].
+        apply deq_sym. eapply deq_trans; [exact Dd | apply dpow0_wf; assumption].
+      * left. apply vpow_zero_base; auto.
+    + right. eapply deq_trans; [exact Dd'|]. apply deq_sym. eapply deq_trans; [exact Dd|].
+      apply dpow_deq; [apply deq_sym; exact Hd | reflexivity].
+  - intros Hany. destruct Hcase as [Hc1|Hc1]; rewrite Hc1 in Hany; [discriminate Hany|].
+    pose proof (vpow_any_inv bv q Hany) as Hbv.
+    destruct (qzero q) eqn:Eq.
+    + exfalso. destruct bv; cbn [vpow] in Hany; try rewrite Eq in Hany; vm_compute in Hany; discriminate Hany.
+    + apply vpow_zero_base; auto.
+  - intros Hz. destruct Hcase as [Hz'|Hz']; rewrite Hz in Hz'; [discriminate Hz'|].
+    symmetry in Hz'. apply vpow_zoo_inv in Hz' as [Hbv Hneg].
+    rewrite (vpow_zero_neg bf q Fbf (Hany3 Hbv) Hneg) in Ff. discriminate Ff.
+Qed.
+
+(* ================================================================================================ *)
+(* The theorem                                                                                       *)
+(* ================================================================================================ *)
+Theorem diag_all : forall q, diag q.
+Proof.
+  induction q as [v0|v0 d0|v0|l IH|b x IHb IHx|l IH|a IHa|l IH|l IH|ov l IH|] using qexpr_ind2.
+  - apply diag_num.
+  - apply diag_qty.
+  - intros e rv d Hi. inversion Hi.
+  - apply diag_mul; exact IH.
+  - apply diag_pow; exact IHb.
+  - apply diag_add; exact IH.
+  - apply diag_abs; exact IHa.
+  - apply diag_min; exact IH.
+  - apply diag_max; exact IH.
+  - apply diag_fun; exact IH.
+  - intros e rv d Hi. inversion Hi.
+Qed.
+
+(* whenever inference succeeds on an expression in scope, building a quantity from any instantiation of its
+   symbols by non-zero quantities of the declared dimensions (finite sub-values) is never refused, and the quantity
+   has the inferred dimension -- unless its value is 0, which is compatible with every dimension *)
+Theorem infer_then_collect : forall e q rv d,
+  scopeb e = true -> Inst e q -> Fin q -> infer_e e = Ok (rv, d) ->
+  exists v d', collect q = Ok (v, d') /\ v = value q /\ finite_val v = true /\ wf_dim d /\ wf_dim d' /\
+               (is_any v = true \/ deq d' d).
+Proof.
+  intros e q rv d Hs Hi HF He.
+  destruct (diag_all q e rv d Hi Hs HF He) as [Wd [v [d' [Hc [Wd' [Hd _]]]]]].
+  pose proof (collect_value q v d' Hc) as Hv.
+  exists v, d'. repeat split; auto. rewrite Hv. apply Fin_finite. exact HF.
+Qed.
+
+(* corollaries in the vocabulary of the task statement *)
+Corollary infer_then_collect_erased : forall e q rv d,
+  scopeb e = true -> Inst e q -> Fin q -> infer_e e = Ok (rv, d) ->
+  exists v d', collect q = Ok (v, d') /\ (is_any v = true \/ deq (erase_angle d) (erase_angle d')).
+Proof.
+  intros e q rv d Hs Hi HF He.
+  destruct (infer_then_collect e q rv d Hs Hi HF He) as [v [d' [Hc [_ [_ [_ [_ Hd]]]]]]].
+  exists v, d'. split; [exact Hc|]. destruct Hd as [Hd|Hd]; [left; exact Hd | right].
+  apply erase_angle_deq, deq_sym. exact Hd.
+Qed.
+
+(* the quantity constructor itself (Quantity(expr)) succeeds with that dimension *)
+Corollary infer_then_quantity : forall e q rv d,
+  scopeb e = true -> Inst e q -> Fin q -> infer_e e = Ok (rv, d) ->
+  exists v d', quantity_ctor q None = Ok (v, d') /\ (is_any v = true \/ equivalent_dims d' d = true).
+Proof.
+  intros e q rv d Hs Hi HF He.
+  destruct (infer_then_collect e q rv d Hs Hi HF He) as [v [d' [Hc [_ [Fv [_ [_ Hd]]]]]]].
+  exists v, d'. split.
+  - apply (proj1 (quantity_ctor_spec q None)); [exact Hc|]. destruct v; try discriminate Fv; reflexivity.
+  - destruct Hd as [Hd|Hd]; [left; exact Hd | right; apply deqb_deq; exact Hd].
+Qed.
+
+(* ================================================================================================ *)
+(* Non-vacuity and sharpness                                                                         *)
+(* ================================================================================================ *)
+Definition d_mass : dim := base 1.
+
+(* 2 x^2 + (0 s) m + |x (-3 m)| + f(t / (4 s)) Max((1 m)^2, x y)        x, y : length, m : mass, t : time *)
+Definition ex_e : sexpr :=
+  SAdd [ SMul [SNum (VQ 2); SPow (SDimSym d_length) (SNum (VQ 2))];
+         SMul [SQty (VQ 0) d_time; SDimSym d_mass];
+         SAbs (SMul [SDimSym d_length; SQty (VQ (-3)) d_length]);
+         SMul [SFun dzero [SMul [SDimSym d_time; SPow (SQty (VQ 4) d_time) (SNum (VQ (-1)))]];
+               SMax [SPow (SQty (VQ 1) d_length) (SNum (VQ 2)); SMul [SDimSym d_length; SDimSym d_length]]] ].
+
+(* x := 5 m (first occurrence), 1/2 m, 7 m ; m := 11 kg ; t := 2 s ; y := 3 m ; f(1/2) = 9 *)
+Definition ex_q : qexpr :=
+  QAdd [ QMul [QNum (VQ 2); QPow (QQty (VQ 5) d_length) (QNum (VQ 2))];
+         QMul [QQty (VQ 0) d_time; QQty (VQ 11) d_mass];
+         QAbs (QMul [QQty (VQ (1#2)) d_length; QQty (VQ (-3)) d_length]);
+         QMul [QFun (VQ 9) [QMul [QQty (VQ 2) d_time; QPow (QQty (VQ 4) d_time) (QNum (VQ (-1)))]];
+               QMax [QPow (QQty (VQ 1) d_length) (QNum (VQ 2)); QMul [QQty (VQ 7) d_length; QQty (VQ 3) d_length]]] ].
+
+Example ex_scope : scopeb ex_e = true.
+Proof. vm_compute. reflexivity. Qed.
+
+Example ex_inst : Inst ex_e ex_q.
+Proof. unfold ex_e, ex_q. repeat (first [ apply Forall2_nil | apply Forall2_cons | constructor | reflexivity ]). Qed.
+
+Example ex_fin : Fin ex_q.
+Proof.
+  unfold ex_q.
+  repeat (first [ apply Forall_nil | apply Forall_cons | constructor
+                | (vm_compute; reflexivity) | discriminate ]).
+Qed.
+
+Example ex_values :
+  match infer_e ex_e, collect ex_q with
+  | Ok (rv, d), Ok (v, d') =>
+      deqb d (dpow d_length 2) && deqb d' d && negb (is_any v) && val_eqb v (VQ (481 # 2))
+  | _, _ => false
+  end = true.
+Proof. vm_compute. reflexivity. Qed.
+
+(* the theorem applies to it *)
+Example ex_applies : exists v d', collect ex_q = Ok (v, d') /\ (is_any v = true \/ deq d' (dpow d_length 2)).
+Proof.
+  destruct (infer_e ex_e) as [[rv d]|k] eqn:E; [|vm_compute in E; discriminate E].
+  destruct (infer_then_collect ex_e ex_q rv d ex_scope ex_inst ex_fin E) as [v [d' [Hc [_ [_ [_ [_ Hd]]]]]]].
+  exists v, d'. split; [exact Hc|]. destruct Hd as [Hd|Hd]; [left; exact Hd | right].
+  eapply deq_trans; [exact Hd|]. apply deqb_deq. vm_compute in E. inversion E; subst. vm_compute. reflexivity.
+Qed.
+
+(* ---- hypotheses that cannot be dropped ------------------------------------------------------------ *)
+
+(* (a) the exponent must be a literal rational: Min(0 m)^pi is inferred (dimensionless: a zero fixes no
+       dimension) but refused by the quantity construction (the collected base keeps its length) *)
+Example exponent_must_be_rational :
+  let e := SPow (SMin [SQty (VQ 0) d_length]) (SNum VOther) in
+  let q := QPow (QMin [QQty (VQ 0) d_length]) (QNum VOther) in
+  Inst e q /\ Fin q /\ infer_e e = Ok (VSym, dzero) /\ collect q = Err E_UNSUPPORTED.
+Proof.
+  cbv zeta. split; [|split; [|split; vm_compute; reflexivity]].
+  - repeat (first [ apply Forall2_nil | apply Forall2_cons | constructor | reflexivity ]).
+  - repeat (first [ apply Forall_nil | apply Forall_cons | constructor | (vm_compute; reflexivity) | discriminate ]).
+Qed.
+
+(* (b) function arguments must be dimensionless: the inference only asks them to be inferable *)
+Example function_arguments_dimensionless :
+  let e := SFun dzero [SDimSym d_length] in
+  let q := QFun (VQ 1) [QQty (VQ 5) d_length] in
+  Inst e q /\ Fin q /\ infer_e e = Ok (VSym, dzero) /\ collect q = Err E_VALUE.
+Proof.
+  cbv zeta. split; [|split; [|split; vm_compute; reflexivity]].
+  - repeat (first [ apply Forall2_nil | apply Forall2_cons | constructor | reflexivity ]).
+  - repeat (first [ apply Forall_nil | apply Forall_cons | constructor | (vm_compute; reflexivity) | discriminate ]).
+Qed.
+
+(* (c) finite values: with an infinite scale factor the collected dimension of a product drops what was
+       collected so far; the quantity is VOther (not of any dimension) and dimensionless, the inference says time *)
+Example values_must_be_finite :
+  let e := SMul [SQty VPInf d_length; SQty (VQ 1) d_time; SNum VOther] in
+  let q := QMul [QQty VPInf d_length; QQty (VQ 1) d_time; QNum VOther] in
+  scopeb e = true /\ Inst e q /\ infer_e e = Ok (VSym, d_time) /\ collect q = Ok (VOther, dzero) /\
+  is_any VOther = false /\ deqb dzero d_time = false.
+Proof.
+  cbv zeta. split; [vm_compute; reflexivity|]. split; [|repeat split; vm_compute; reflexivity].
+  repeat (first [ apply Forall2_nil | apply Forall2_cons | constructor | reflexivity ]).
+Qed.
+
+(* (d) no literal Float(0.0) under Min/Max (a clause of Fin; the model's Min(0.0, 0) is the coarse VOther) *)
+Example no_float0_under_min :
+  let e := SMin [SNum VFloat0; SQty (VQ 0) d_length] in
+  let q := QMin [QNum VFloat0; QQty (VQ 0) d_length] in
+  scopeb e = true /\ Inst e q /\ infer_e e = Ok (VSym, dzero) /\ collect q = Ok (VOther, d_length) /\
+  deqb d_length dzero = false.
+Proof.
+  cbv zeta. split; [vm_compute; reflexivity|]. split; [|repeat split; vm_compute; reflexivity].
+  repeat (first [ apply Forall2_nil | apply Forall2_cons | constructor | reflexivity ]).
+Qed.
+
+(* (e) argument lists are non-empty (SymPy never builds Add() / Mul() nodes) *)
+Example empty_nodes_differ :
+  infer_e (SAdd []) = Ok (VQ 0, dzero) /\ collect (QAdd []) = Err E_OTHER /\
+  infer_e (SMul []) = Ok (VQ 1, dzero) /\ collect (QMul []) = Err E_OTHER.
+Proof. repeat split; vm_compute; reflexivity. Qed.
+
+(* (f) covered since sums whose terms are ALL literally zero are in scope: ((0 m) k + (0 s) x) + ((0 m) t)^2 + k *)
+Definition ex2_e : sexpr :=
+  SAdd [ SAdd [SMul [SQty (VQ 0) d_length; SDimSym d_mass]; SMul [SQty (VQ 0) d_time; SDimSym d_length]];
+         SPow (SMul [SQty (VQ 0) d_length; SDimSym d_time]) (SNum (VQ 2));
+         SDimSym d_mass ].
+Definition ex2_q : qexpr :=
+  QAdd [ QAdd [QMul [QQty (VQ 0) d_length; QQty (VQ 3) d_mass]; QMul [QQty (VQ 0) d_time; QQty (VQ 5) d_length]];
+         QPow (QMul [QQty (VQ 0) d_length; QQty (VQ 2) d_time]) (QNum (VQ 2));
+         QQty (VQ 4) d_mass ].
+
+Example ex2_in_scope :
+  scopeb ex2_e = true /\ Inst ex2_e ex2_q /\ Fin ex2_q /\
+  infer_e ex2_e = Ok (VSym, d_mass) /\ collect ex2_q = Ok (VQ 4, d_mass).
+Proof.
+  split; [vm_compute; reflexivity|]. split; [|split; [|split; vm_compute; reflexivity]].
+  - unfold ex2_e, ex2_q. repeat (first [ apply Forall2_nil | apply Forall2_cons | constructor | reflexivity ]).
+  - unfold ex2_q.
+    repeat (first [ apply Forall_nil | apply Forall_cons | constructor | (vm_compute; reflexivity) | discriminate ]).
+Qed.
+
+(* ---- what is NOT covered ---------------------------------------------------------------------------- *)
+
+(* The scope clause `sum_ok` excludes sums whose returned expression cancels to a literal 0 although not every
+   term is literally 0, e.g. (1 rad-free) + (-1): the conclusion still holds on such inputs (below), but proving
+   it needs the two models' arithmetic (different grouping, Qred) to agree on whole numeric sub-trees, which is
+   not done here.  The statement without that clause is recorded, unproved, as the target. *)
+Example cancelling_sum_out_of_scope :
+  let e := SAdd [SAdd [SQty (VQ 1) dzero; SNum (VQ (-1))]; SDimSym d_length] in
+  let q := QAdd [QAdd [QQty (VQ 1) dzero; QNum (VQ (-1))]; QQty (VQ 2) d_length] in
+  scopeb e = false /\ infer_e e = Ok (VSym, d_length) /\ collect q = Ok (VQ 2, d_length).
+Proof. cbv zeta. repeat split; vm_compute; reflexivity. Qed.
+
+Fixpoint scopeb_full (e : sexpr) : bool :=
+  match e with
+  | SNum _ => true
+  | SQty _ d => wf_dimb d
+  | SDimSym d => wf_dimb d
+  | SPlain => false
+  | SMul l => nonempty l && forallb scopeb_full l
+  | SPow b x => scopeb_full b && match x with SNum (VQ _) => true | _ => false end
+  | SAdd l => nonempty l && forallb scopeb_full l
+  | SAbs a => scopeb_full a
+  | SMin l => nonempty l && forallb scopeb_full l
+  | SMax l => nonempty l && forallb scopeb_full l
+  | SFun d l => wf_dimb d && dimensionless d && forallb scopeb_full l && forallb infers_dimensionless l
+  | SDeriv _ _ _ => false
+  end.
+
+(* NOT proved (believed true): infer_then_collect without the `sum_ok` clause *)
+Definition infer_then_collect_full_statement : Prop :=
+  forall e q rv d,
+    scopeb_full e = true -> Inst e q -> Fin q -> infer_e e = Ok (rv, d) ->
+    exists v d', collect q = Ok (v, d') /\ v = value q /\ finite_val v = true /\ wf_dim d /\ wf_dim d' /\
+                 (is_any v = true \/ deq d' d).
+
+Print Assumptions infer_then_collect.
+Print Assumptions infer_then_collect_erased.
+Print Assumptions infer_then_quantity.
+Print Assumptions ex_applies.
